@@ -299,3 +299,334 @@ Proof.
   - destruct H as [H|H]; [discriminate|]. apply Z.ltb_lt in H. rewrite H. reflexivity.
   - reflexivity.
 Qed.
+
+(** * distributeDeveloperRewards *)
+
+Definition dev_paid (cfg : config) (dev : Z) : Z :=
+  match p_recv cfg with [] => dev | rs => paid_total dev rs end.
+Definition dev_to_community (cfg : config) (dev : Z) : Z :=
+  match p_recv cfg with [] => dev | rs => paid_empty dev rs end.
+Definition dev_delta (cfg : config) (dev : Z) (x : acct) : Z :=
+  match p_recv cfg with [] => delta ADistr x dev - delta AVest x dev | rs => recv_delta dev rs x end.
+
+Definition weights_nonneg (cfg : config) : Prop := Forall (fun aw => 0 <= snd aw) (p_recv cfg).
+
+Lemma developer_rewards_spec cfg minted b b' dev :
+  0 <= minted -> 0 <= p_dev cfg -> weights_nonneg cfg ->
+  distribute_developer_rewards cfg minted b = Ok (b', dev) ->
+  dev = share minted (p_dev cfg) /\ p_dev cfg <= P18 /\ dev <= bal b AVest /\
+  (forall x, bal b' x = bal b x - delta AMint x dev + dev_delta cfg dev x) /\
+  cpool b' = cpool b + dev_to_community cfg dev /\
+  supply b' = supply b - dev /\
+  offset b' = offset b + bal b AVest - bal b' AVest /\
+  no_blocked (p_recv cfg).
+Proof.
+  intros HM Hpd Hw H. unfold distribute_developer_rewards in H.
+  unfold bind in H at 1.
+  destruct (get_proportions minted (p_dev cfg)) as [dv|] eqn:Egp; [|discriminate].
+  destruct (get_proportions_inv _ _ _ HM Hpd Egp) as [Hle ->].
+  set (dv := share minted (p_dev cfg)) in *.
+  assert (Hdv : 0 <= dv) by (apply share_nonneg; assumption).
+  destruct (bal b AVest <? dv) eqn:Ev; [discriminate|]. apply Z.ltb_ge in Ev.
+  unfold bind in H at 1.
+  destruct (burn_coins dv b) as [b1|] eqn:Eb; [|discriminate].
+  destruct (burn_coins_spec _ _ _ Eb) as [Hb1 [Hc1 [Hs1 Ho1]]].
+  unfold bind in H at 1.
+  unfold dev_delta, dev_to_community. unfold weights_nonneg in Hw.
+  destruct (p_recv cfg) as [|aw r] eqn:Er.
+  - destruct (fund_community AVest dv (add_supply_offset (bal b AVest) b1)) as [b3|] eqn:E3; [|discriminate].
+    destruct (fund_community_spec _ _ _ _ E3) as [Hb3 [Hc3 [Hs3 Ho3]]].
+    cbn [add_supply_offset bal cpool supply offset] in Hb3, Hc3, Hs3, Ho3.
+    inversion H; subst b' dev; clear H. cbn [add_supply_offset bal cpool supply offset].
+    repeat split; try assumption; try lia; try constructor.
+    intros x. rewrite Hb3, Hb1. lia.
+  - destruct (pay_receivers dv (aw :: r) (add_supply_offset (bal b AVest) b1)) as [b3|] eqn:E3; [|discriminate].
+    destruct (pay_receivers_spec dv Hdv _ _ _ Hw E3) as [Hb3 [Hc3 [Hs3 [Ho3 [Hnb _]]]]].
+    cbn [add_supply_offset bal cpool supply offset] in Hb3, Hc3, Hs3, Ho3.
+    inversion H; subst b' dev; clear H. cbn [add_supply_offset bal cpool supply offset].
+    repeat split; try assumption; try lia.
+    intros x. rewrite Hb3, Hb1. lia.
+Qed.
+
+(** * DistributeMintedCoin up to the hook *)
+
+Definition dev_of (cfg : config) (M : Z) : Z := share M (p_dev cfg).
+Definition comm_of (cfg : config) (M : Z) : Z :=
+  M - share M (p_staking cfg) - share M (p_pool cfg) - dev_of cfg M.
+
+Record valid_cfg (cfg : config) : Prop := {
+  v_staking : 0 <= p_staking cfg;
+  v_pool : 0 <= p_pool cfg;
+  v_dev : 0 <= p_dev cfg;
+  v_comm : 0 <= p_comm cfg;
+  v_sum : p_staking cfg + p_pool cfg + p_dev cfg + p_comm cfg = P18;       (* proportions sum to one *)
+  v_factor : 0 <= p_factor cfg <= P18;
+  v_period : 0 < p_period cfg;
+  v_start : 0 <= p_start cfg;
+  v_weights : Forall (fun aw => 0 < snd aw <= P18) (p_recv cfg);
+  v_wsum : p_recv cfg = [] \/ sum_weights (p_recv cfg) = P18 }.              (* weights sum to one *)
+
+Lemma valid_weights_nonneg cfg : valid_cfg cfg -> weights_nonneg cfg.
+Proof.
+  intros V. unfold weights_nonneg. eapply Forall_impl; [|apply (v_weights _ V)]. cbn. intros; lia.
+Qed.
+
+Lemma comm_ge_share cfg M : valid_cfg cfg -> 0 <= M -> share M (p_comm cfg) <= comm_of cfg M.
+Proof.
+  intros V HM. unfold comm_of, dev_of.
+  pose proof (shares_le_total M _ _ _ _ HM (v_staking _ V) (v_pool _ V) (v_dev _ V) (v_comm _ V) (v_sum _ V)).
+  lia.
+Qed.
+
+Lemma comm_nonneg cfg M : valid_cfg cfg -> 0 <= M -> 0 <= comm_of cfg M.
+Proof.
+  intros V HM. pose proof (comm_ge_share cfg M V HM).
+  pose proof (share_nonneg M (p_comm cfg) HM (v_comm _ V)). lia.
+Qed.
+
+Lemma distribute_pre_spec cfg M b b' :
+  valid_cfg cfg -> 0 <= M ->
+  distribute_minted_coin_pre cfg M b = Ok b' ->
+  (forall x, bal b' x = bal b x - delta AMint x M + delta AFee x (share M (p_staking cfg))
+                        + delta APool x (share M (p_pool cfg)) + dev_delta cfg (dev_of cfg M) x
+                        + delta ADistr x (comm_of cfg M)) /\
+  cpool b' = cpool b + dev_to_community cfg (dev_of cfg M) + comm_of cfg M /\
+  supply b' = supply b - dev_of cfg M /\
+  offset b' = offset b + bal b AVest - bal b' AVest /\
+  dev_of cfg M <= bal b AVest /\
+  no_blocked (p_recv cfg).
+Proof.
+  intros V HM H. unfold distribute_minted_coin_pre in H.
+  pose proof (v_staking _ V) as Hs0. pose proof (v_pool _ V) as Hp0. pose proof (v_dev _ V) as Hd0.
+  (* staking *)
+  unfold bind in H at 1. unfold distribute_to_module in H at 1. unfold bind in H at 1.
+  destruct (get_proportions M (p_staking cfg)) as [st|] eqn:E1; [|discriminate].
+  destruct (get_proportions_inv _ _ _ HM Hs0 E1) as [_ ->].
+  unfold bind in H at 1.
+  destruct (send AMint AFee (share M (p_staking cfg)) b) as [b1|] eqn:S1; [|discriminate].
+  destruct (send_spec _ _ _ _ _ S1) as [Hb1 [Hc1 [Hs1 Ho1]]].
+  (* pool incentives *)
+  unfold bind in H at 1. unfold distribute_to_module in H at 1. unfold bind in H at 1.
+  destruct (get_proportions M (p_pool cfg)) as [pl|] eqn:E2; [|discriminate].
+  destruct (get_proportions_inv _ _ _ HM Hp0 E2) as [_ ->].
+  unfold bind in H at 1.
+  destruct (send AMint APool (share M (p_pool cfg)) b1) as [b2|] eqn:S2; [|discriminate].
+  destruct (send_spec _ _ _ _ _ S2) as [Hb2 [Hc2 [Hs2 Ho2]]].
+  (* developer rewards *)
+  unfold bind in H at 1.
+  destruct (distribute_developer_rewards cfg M b2) as [[b3 dv]|] eqn:D3; [|discriminate].
+  destruct (developer_rewards_spec _ _ _ _ _ HM Hd0 (valid_weights_nonneg _ V) D3)
+    as [-> [_ [Hvest [Hb3 [Hc3 [Hs3 [Ho3 Hnb]]]]]]].
+  fold (dev_of cfg M) in *. fold (comm_of cfg M) in H.
+  destruct (comm_of cfg M <? 0) eqn:Ec; [discriminate|].
+  destruct (fund_community_spec _ _ _ _ H) as [Hb4 [Hc4 [Hs4 Ho4]]].
+  assert (Hv2 : bal b2 AVest = bal b AVest).
+  { rewrite Hb2, Hb1. unfold delta; cbn [acct_eqb]. lia. }
+  assert (Hv4 : bal b' AVest = bal b3 AVest).
+  { rewrite Hb4. unfold delta; cbn [acct_eqb]. lia. }
+  repeat split; try assumption; try lia.
+  intros x. rewrite Hb4, Hb3, Hb2, Hb1. unfold comm_of.
+  unfold delta. destruct (acct_eqb x AMint), (acct_eqb x AFee), (acct_eqb x APool), (acct_eqb x ADistr); lia.
+Qed.
+
+(** * The pool-incentives hook only forwards what the pool-incentives account holds *)
+
+Record hook_rel (b b' : bank) : Prop := {
+  hr_other : forall x, x <> APool -> x <> AInc -> x <> ADistr -> bal b' x = bal b x;
+  hr_sum : bal b' APool + bal b' AInc + bal b' ADistr = bal b APool + bal b AInc + bal b ADistr;
+  hr_cpool : cpool b' - bal b' ADistr = cpool b - bal b ADistr;
+  hr_supply : supply b' = supply b;
+  hr_offset : offset b' = offset b }.
+
+Lemma hook_rel_refl b : hook_rel b b.
+Proof. constructor; intros; reflexivity. Qed.
+
+Lemma hook_rel_trans b1 b2 b3 : hook_rel b1 b2 -> hook_rel b2 b3 -> hook_rel b1 b3.
+Proof.
+  intros [A1 A2 A3 A4 A5] [B1 B2 B3 B4 B5]. constructor; try lia.
+  intros x H1 H2 H3. rewrite B1, A1 by assumption. reflexivity.
+Qed.
+
+Lemma neq_delta a x amt : x <> a -> delta a x amt = 0.
+Proof.
+  intros H. unfold delta. destruct (acct_eqb x a) eqn:E; [apply acct_eqb_eq in E; contradiction|reflexivity].
+Qed.
+
+Lemma hook_fund b b' amt : fund_community APool amt b = Ok b' -> hook_rel b b'.
+Proof.
+  intros H. destruct (fund_community_spec _ _ _ _ H) as [Hb [Hc [Hs Ho]]].
+  constructor; try assumption.
+  - intros x H1 H2 H3. rewrite Hb, !neq_delta by assumption. lia.
+  - rewrite !Hb. unfold delta; cbn [acct_eqb]. lia.
+  - rewrite Hb, Hc. unfold delta; cbn [acct_eqb]. lia.
+Qed.
+
+Lemma hook_send b b' amt : send APool AInc amt b = Ok b' -> hook_rel b b'.
+Proof.
+  intros H. destruct (send_spec _ _ _ _ _ H) as [Hb [Hc [Hs Ho]]].
+  constructor; try assumption.
+  - intros x H1 H2 H3. rewrite Hb, !neq_delta by assumption. lia.
+  - rewrite !Hb. unfold delta; cbn [acct_eqb]. lia.
+  - rewrite Hb, Hc. unfold delta; cbn [acct_eqb]. lia.
+Qed.
+
+Lemma allocate_records_rel asset total rs : forall b b',
+  allocate_records asset total rs b = Ok b' -> hook_rel b b'.
+Proof.
+  induction rs as [|[g w] r IH]; intros b b' H; cbn [allocate_records] in H.
+  - inversion H. apply hook_rel_refl.
+  - destruct (alloc_amount asset w total <=? 0); [apply IH; assumption|].
+    unfold bind in H.
+    destruct (g =? 0).
+    + destruct (fund_community APool (alloc_amount asset w total) b) as [b1|] eqn:E; [|discriminate].
+      eapply hook_rel_trans; [eapply hook_fund; eassumption|apply IH; assumption].
+    + destruct (send APool AInc (alloc_amount asset w total) b) as [b1|] eqn:E; [|discriminate].
+      eapply hook_rel_trans; [eapply hook_send; eassumption|apply IH; assumption].
+Qed.
+
+Lemma hook_spec cfg b b' : after_distribute_hook cfg b = Ok b' -> hook_rel b b'.
+Proof.
+  unfold after_distribute_hook, allocate_asset.
+  destruct (bal b APool =? 0); [intros H; inversion H; apply hook_rel_refl|].
+  destruct (d_total cfg =? 0).
+  - destruct (fund_community APool (bal b APool) b) as [b1|] eqn:E; [|discriminate].
+    intros H; inversion H; subst. eapply hook_fund; eassumption.
+  - destruct (allocate_records (bal b APool) (d_total cfg) (d_records cfg) b) as [b1|] eqn:E; [|discriminate].
+    intros H; inversion H; subst. eapply allocate_records_rel; eassumption.
+Qed.
+
+(** * One successful minting epoch *)
+
+Lemma dev_delta_other cfg dev x :
+  x <> AVest -> x <> ADistr -> (forall i, x <> ARecv i) -> dev_delta cfg dev x = 0.
+Proof.
+  intros H1 H2 H3. unfold dev_delta. destruct (p_recv cfg).
+  - rewrite !neq_delta by assumption. lia.
+  - apply recv_delta_other; assumption.
+Qed.
+
+Lemma dev_delta_recv cfg dev i : dev_delta cfg dev (ARecv i) = paid_to i dev (p_recv cfg).
+Proof.
+  unfold dev_delta. destruct (p_recv cfg) eqn:E; [reflexivity|]. apply recv_delta_recv.
+Qed.
+
+Lemma dev_delta_vest cfg dev : no_blocked (p_recv cfg) -> dev_delta cfg dev AVest = - dev_paid cfg dev.
+Proof.
+  intros H. unfold dev_delta, dev_paid. destruct (p_recv cfg) eqn:E.
+  - unfold delta; cbn [acct_eqb]. lia.
+  - apply recv_delta_vest; assumption.
+Qed.
+
+Lemma dev_delta_distr cfg dev : dev_delta cfg dev ADistr = dev_to_community cfg dev.
+Proof.
+  unfold dev_delta, dev_to_community. destruct (p_recv cfg) eqn:E.
+  - unfold delta; cbn [acct_eqb]. lia.
+  - apply recv_delta_distr.
+Qed.
+
+(* the rounding remainder r of the developer payout *)
+Definition dev_remainder (cfg : config) (M : Z) : Z := dev_of cfg M - dev_paid cfg (dev_of cfg M).
+
+Lemma dev_remainder_bounds cfg M :
+  valid_cfg cfg -> 0 <= M ->
+  0 <= dev_remainder cfg M /\
+  (p_recv cfg = [] -> dev_remainder cfg M = 0) /\
+  (p_recv cfg <> [] -> dev_remainder cfg M < Z.of_nat (length (p_recv cfg))).
+Proof.
+  intros V HM. unfold dev_remainder, dev_paid.
+  assert (Hd : 0 <= dev_of cfg M) by (apply share_nonneg; [assumption|apply (v_dev _ V)]).
+  pose proof (valid_weights_nonneg _ V) as Hw. unfold weights_nonneg in Hw.
+  destruct (v_wsum _ V) as [He|Hs].
+  - rewrite He. repeat split; try lia. intros; congruence.
+  - destruct (p_recv cfg) as [|aw r] eqn:E.
+    + repeat split; try lia. intros; congruence.
+    + assert (Hne : aw :: r <> []) by discriminate.
+      pose proof (remainder_bounds _ _ Hd Hne Hw Hs). repeat split; try lia. intros; discriminate.
+Qed.
+
+(* [b]: bank before the call, [b1]: when DistributeMintedCoin reaches its hook, [b']: after the call *)
+Record minted_epoch (cfg : config) (M : Z) (b b1 b' : bank) : Prop := {
+  (* the split, as it stands when the pool-incentives hook is called *)
+  me_staking : bal b1 AFee = bal b AFee + share M (p_staking cfg);
+  me_pool : bal b1 APool = bal b APool + share M (p_pool cfg);
+  me_recv : forall i, bal b1 (ARecv i) = bal b (ARecv i) + paid_to i (dev_of cfg M) (p_recv cfg);
+  me_vest : bal b1 AVest = bal b AVest - dev_paid cfg (dev_of cfg M);
+  me_distr : bal b1 ADistr = bal b ADistr + comm_of cfg M + dev_to_community cfg (dev_of cfg M);
+  me_cpool : cpool b1 = cpool b + comm_of cfg M + dev_to_community cfg (dev_of cfg M);
+  me_comm_ge : share M (p_comm cfg) <= comm_of cfg M;
+  me_mint : bal b1 AMint = bal b AMint;
+  me_inc : bal b1 AInc = bal b AInc;
+  me_supply : supply b1 = supply b + M - dev_of cfg M;
+  me_reported : supply b1 + offset b1 = supply b + offset b + M - dev_remainder cfg M;
+  me_vest_enough : dev_of cfg M <= bal b AVest;
+  me_no_blocked : no_blocked (p_recv cfg);
+  (* the hook forwards pool-incentives funds to gauges / the community pool and touches nothing else *)
+  me_hook : hook_rel b1 b' }.
+
+Lemma next_prov_nonneg cfg s e : valid_cfg cfg -> 0 <= s_prov s -> 0 <= next_prov cfg s e.
+Proof.
+  intros V Hp. unfold next_prov. destruct (reduces cfg s e); [|assumption].
+  apply d_mul_nonneg; [assumption|apply (v_factor _ V)].
+Qed.
+
+Lemma minted_at_nonneg cfg s e : valid_cfg cfg -> 0 <= s_prov s -> 0 <= minted_at cfg s e.
+Proof. intros. unfold minted_at. apply d_truncate_int_nonneg, next_prov_nonneg; assumption. Qed.
+
+Lemma mint_epoch_spec cfg s e s' :
+  valid_cfg cfg -> 0 <= s_prov s -> p_start cfg <= e ->
+  after_epoch_end cfg s true e = Ok s' ->
+  s_prov s' = next_prov cfg s e /\ s_last s' = next_last cfg s e /\
+  exists b1, minted_epoch cfg (minted_at cfg s e) (s_bank s) b1 (s_bank s').
+Proof.
+  intros V Hp He H. unfold after_epoch_end in H. cbn [negb] in H.
+  destruct (e <? p_start cfg) eqn:E; [apply Z.ltb_lt in E; lia|]. clear E.
+  pose proof (minted_at_nonneg cfg s e V Hp) as HM.
+  set (M := minted_at cfg s e) in *.
+  unfold bind in H at 1. unfold distribute_minted_coin in H. unfold bind in H at 1.
+  destruct (distribute_minted_coin_pre cfg M (mint_coins M (s_bank s))) as [b1|] eqn:Epre; [|discriminate].
+  destruct (after_distribute_hook cfg b1) as [b2|] eqn:Eh; [|discriminate].
+  inversion H; subst s'; clear H. cbn [s_bank s_prov s_last].
+  split; [reflexivity|]. split; [reflexivity|]. exists b1.
+  destruct (distribute_pre_spec _ _ _ _ V HM Epre) as [Hb [Hc [Hs [Ho [Hv Hnb]]]]].
+  destruct (mint_coins_spec M (s_bank s)) as [Hmb [Hmc [Hms Hmo]]].
+  rewrite Hmc in Hc. rewrite Hms in Hs. rewrite Hmo in Ho.
+  assert (Hvm : bal (mint_coins M (s_bank s)) AVest = bal (s_bank s) AVest).
+  { rewrite Hmb. unfold delta; cbn [acct_eqb]. lia. }
+  rewrite Hvm in Ho, Hv.
+  assert (HB : forall x, bal b1 x = bal (s_bank s) x + delta AFee x (share M (p_staking cfg))
+                        + delta APool x (share M (p_pool cfg)) + dev_delta cfg (dev_of cfg M) x
+                        + delta ADistr x (comm_of cfg M)).
+  { intros x. rewrite Hb, Hmb. lia. }
+  assert (Hvest : bal b1 AVest = bal (s_bank s) AVest - dev_paid cfg (dev_of cfg M)).
+  { rewrite HB, dev_delta_vest by assumption. unfold delta; cbn [acct_eqb]. lia. }
+  constructor; try assumption.
+  - rewrite HB, dev_delta_other by (try discriminate; intros; discriminate). unfold delta; cbn [acct_eqb]. lia.
+  - rewrite HB, dev_delta_other by (try discriminate; intros; discriminate). unfold delta; cbn [acct_eqb]. lia.
+  - intros i. rewrite HB, dev_delta_recv. unfold delta; cbn [acct_eqb]. lia.
+  - rewrite HB, dev_delta_distr. unfold delta; cbn [acct_eqb]. lia.
+  - lia.
+  - apply comm_ge_share; assumption.
+  - rewrite HB, dev_delta_other by (try discriminate; intros; discriminate). unfold delta; cbn [acct_eqb]. lia.
+  - rewrite HB, dev_delta_other by (try discriminate; intros; discriminate). unfold delta; cbn [acct_eqb]. lia.
+  - unfold dev_remainder. lia.
+  - apply (hook_spec cfg); assumption.
+Qed.
+
+(** * A boolean validity check (Params.Validate), for concrete configurations *)
+Definition valid_cfgb (cfg : config) : bool :=
+  (0 <=? p_staking cfg) && (0 <=? p_pool cfg) && (0 <=? p_dev cfg) && (0 <=? p_comm cfg) &&
+  (p_staking cfg + p_pool cfg + p_dev cfg + p_comm cfg =? P18) &&
+  (0 <=? p_factor cfg) && (p_factor cfg <=? P18) && (0 <? p_period cfg) && (0 <=? p_start cfg) &&
+  forallb (fun aw => (0 <? snd aw) && (snd aw <=? P18)) (p_recv cfg) &&
+  (match p_recv cfg with [] => true | rs => sum_weights rs =? P18 end).
+
+Lemma valid_cfgb_sound cfg : valid_cfgb cfg = true -> valid_cfg cfg.
+Proof.
+  unfold valid_cfgb. rewrite !andb_true_iff.
+  intros [[[[[[[[[[H1 H2] H3] H4] H5] H6] H7] H8] H9] H10] H11].
+  apply Z.leb_le in H1, H2, H3, H4, H6, H7, H9. apply Z.eqb_eq in H5. apply Z.ltb_lt in H8.
+  constructor; try lia.
+  - apply Forall_forall. intros aw Hin. rewrite forallb_forall in H10. specialize (H10 aw Hin).
+    apply andb_true_iff in H10. destruct H10 as [A B]. apply Z.ltb_lt in A. apply Z.leb_le in B. lia.
+  - destruct (p_recv cfg); [left; reflexivity|right]. apply Z.eqb_eq in H11. exact H11.
+Qed.
